@@ -564,6 +564,8 @@ type nodeRefState struct {
 	foreign  int64 // size of the foreign allocation (0 = none)
 	reserved bool
 	sched    bool
+	extra    int  // real allocations that replaced a placeholder (never released by this alphabet)
+	hasPh    bool // a placeholder of size 2 is on the node
 }
 
 type nodeWorld struct {
@@ -608,6 +610,12 @@ func (w *nodeWorld) enabled() []string {
 		}
 		if s.nAlloc > 0 {
 			ops = append(ops, "RELEASE "+id, "RESIZE "+id)
+		}
+		if s.alloc+s.foreign+2 <= s.cap && !s.hasPh {
+			ops = append(ops, "PLACEHOLDER "+id)
+		}
+		if s.hasPh {
+			ops = append(ops, "REPLACE "+id)
 		}
 		if s.foreign == 0 {
 			ops = append(ops, "FOREIGN_ADD "+id)
@@ -662,6 +670,21 @@ func (w *nodeWorld) apply(op string) {
 		key := fmt.Sprintf("al-%s-%d", id, s.nAlloc)
 		got := w.nodes[id].RemoveAllocation(key)
 		s.alloc -= int64(got.GetAllocatedResource().Resources["memory"])
+	case "PLACEHOLDER":
+		ph := mkAsk("ph-"+id, "napp", 2, 2, 0, 1000)
+		ph.SetNodeID(id)
+		w.nodes[id].AddAllocation(ph)
+		s.alloc += 2
+		s.hasPh = true
+	case "REPLACE":
+		// the placeholder (2) is replaced on the same node by a real allocation of size 1
+		w.seq++
+		real := mkAsk(fmt.Sprintf("real-%s-%d", id, w.seq), "napp", 1, 1, 0, 1000)
+		real.SetNodeID(id)
+		w.nodes[id].ReplaceAllocation("ph-"+id, real, resources.Multiply(memRes(1), -1))
+		s.alloc--
+		s.hasPh = false
+		s.extra++
 	case "RESIZE":
 		// in-place increase of the newest allocation by 1 (what PartitionContext.UpdateAllocation does)
 		key := fmt.Sprintf("al-%s-%d", id, s.nAlloc-1)
@@ -698,7 +721,7 @@ func (w *nodeWorld) key() string {
 	k := ""
 	for _, id := range c19NodeIDs {
 		s := w.ref[id]
-		k += fmt.Sprintf("%v,%d,%d,%d,%d,%v|", s.reg, s.cap, s.alloc, s.nAlloc, s.foreign, s.reserved)
+		k += fmt.Sprintf("%v,%d,%d,%d,%d,%v,%v,%d|", s.reg, s.cap, s.alloc, s.nAlloc, s.foreign, s.reserved, s.hasPh, s.extra)
 	}
 	return k
 }
@@ -1019,7 +1042,7 @@ func checkC19(tier string, seed int64) *CustomResult {
 			"states": run.states, "transitions": run.trans, "traces_validated_against_impl": run.trans,
 			"distinct_observed_orders": len(run.outcomes),
 			"queue_candidates": len(qAlpha), "queue_sets": len(qjobs) + len(q2jobs), "application_candidates": len(aAlpha), "application_sets": len(ajobs),
-			"rule": fmt.Sprintf("queues: every pair, every triple (quick: of the candidates with pending 1) and every set of 4 over every %dth candidate out of %d key tuples {priority offset, allocated, guaranteed, max, pending} x {fair,fifo} x priority sort on/off, children created in EVERY permutation and sorted by the real Queue.sortQueues; applications: every set of size %v out of %d key tuples x 6 policy combinations through the real Queue.sortApplications; asks: every insertion order of every multiset of <= 4 asks (+ one removal); nodes: every history of depth <= %d over add/remove/allocate/release/resize/foreign add,update,remove/reserve/unreserve/capacity on 3 nodes of the real node collection, both iterators checked in every state, for fair and binpacking. one evaluation = one real sort of one presented order. non-trivial = a candidate set in which the reference comparator strictly orders at least one pair / a node state with >= 2 registered nodes", step, len(qAlpha), asz, len(aAlpha), ndepth),
+			"rule": fmt.Sprintf("queues: every pair, every triple (quick: of the candidates with pending 1) and every set of 4 over every %dth candidate out of %d key tuples {priority offset, allocated, guaranteed, max, pending} x {fair,fifo} x priority sort on/off, children created in EVERY permutation and sorted by the real Queue.sortQueues; applications: every set of size %v out of %d key tuples x 6 policy combinations through the real Queue.sortApplications; asks: every insertion order of every multiset of <= 4 asks (+ one removal); nodes: every history of depth <= %d over add/remove/allocate/release/resize/placeholder/replace/foreign add,update,remove/reserve/unreserve/capacity on 3 nodes of the real node collection, both iterators checked in every state, for fair and binpacking. one evaluation = one real sort of one presented order. non-trivial = a candidate set in which the reference comparator strictly orders at least one pair / a node state with >= 2 registered nodes", step, len(qAlpha), asz, len(aAlpha), ndepth),
 		},
 		Violations: run.found,
 	}
